@@ -428,6 +428,8 @@ func typeConverter(t dsl.Type, contextNamespace string, namedType *dsl.NamedType
 			for i, c := range t.Cases {
 				if c.Type == nil {
 					options[i] = "None"
+					// The null case is written as JSON null: a later case that can be null too needs the tags
+					possibleTypes |= ndjsoncommon.JsonNull
 				} else {
 					jsonTypes := ndjsoncommon.GetJsonDataType(c.Type)
 					jsonTypeStrings := make([]string, 0, 1)
